@@ -89,6 +89,11 @@ fn sig_name(s: i32) -> String {
     }
 }
 
+/// "kills the host process (SIGABRT)" / "never returns (timeout: the call hangs)"
+fn kills(how: &str) -> String {
+    if how == "timeout" { "never returns (timeout: the call hangs the calling host thread)".to_string() } else { format!("kills the host process ({how})") }
+}
+
 fn ended_str(e: &Ended) -> String {
     match e {
         Ended::Exit(c, _) => format!("exit {c}"),
@@ -385,11 +390,11 @@ fn builtin_part(rep: &mut Report, viol: &mut Viol, drv: &mut Driver, seed: u64, 
             pred[*i] = Some(a);
         }
     }
-    let singles: Vec<usize> = (0..cases.len()).filter(|i| pred[*i].as_deref() == Some("panic")).collect();
-    let batched: Vec<usize> = (0..cases.len()).filter(|i| pred[*i].as_deref() != Some("panic")).collect();
-    // --- predicted panics: one worker each
+    let singles: Vec<usize> = (0..cases.len()).filter(|i| pred[*i].as_deref() == Some("panic") || cases[*i].solo).collect();
+    let batched: Vec<usize> = (0..cases.len()).filter(|i| pred[*i].as_deref() != Some("panic") && !cases[*i].solo).collect();
+    // --- predicted panics and solo cases (self-referential arguments): one worker each, short timeout
     let jobs: Vec<Vec<String>> = singles.iter().map(|i| one_job(&case_json(&cases[*i]))).collect();
-    let ended = run_parallel(&jobs, Duration::from_secs(60));
+    let ended = run_parallel(&jobs, Duration::from_secs(20));
     for (i, e) in singles.iter().zip(ended) {
         let c = &cases[*i];
         rep.evaluations += 1;
@@ -399,6 +404,20 @@ fn builtin_part(rep: &mut Report, viol: &mut Viol, drv: &mut Driver, seed: u64, 
         }
         rep.hist("builtin-arg-class", format!("{} {}", c.name, c.class));
         match &e {
+            Ended::Exit(0, out) if pred[*i].as_deref() != Some("panic") => {
+                let r = out.trim().strip_prefix("RESULT ").unwrap_or(out.trim()).to_string();
+                rep.hist("builtin-outcome", canon_kind(&r));
+                rep.class(format!("builtin|{}|{}|{}", c.name, c.class, canon_kind(&r)));
+                if let Some(p) = &pred[*i] {
+                    rep.hist("builtin-model-compared", c.name);
+                    if *p != r {
+                        rep.mismatch(
+                            "Model/Builtins (generated bindings + model) differs from the real built-in's result",
+                            json!({"case": case_json(c), "request": c.lean, "lean": p, "real": r}),
+                        );
+                    }
+                }
+            }
             Ended::Exit(0, out) => {
                 rep.class(format!("builtin|{}|{}|returned", c.name, c.class));
                 rep.mismatch(
@@ -414,7 +433,7 @@ fn builtin_part(rep: &mut Report, viol: &mut Viol, drv: &mut Driver, seed: u64, 
                 input["ended"] = json!(how);
                 viol.add(
                     rep,
-                    &format!("built-in {} kills the host process ({how}) on argument class `{}`", c.name, c.class),
+                    &format!("built-in {} {} on argument class `{}`", c.name, kills(&how), c.class),
                     &builtin_key(c, &how),
                     input,
                 );
@@ -465,7 +484,7 @@ fn builtin_part(rep: &mut Report, viol: &mut Viol, drv: &mut Driver, seed: u64, 
         }
         viol.add(
             rep,
-            &format!("built-in {} kills the host process ({how}) on argument class `{}`", c.name, c.class),
+            &format!("built-in {} {} on argument class `{}`", c.name, kills(&how), c.class),
             &builtin_key(c, &how),
             input,
         );
@@ -526,7 +545,7 @@ fn builtin_batch_worker(rep: &mut Report, seed: u64, thorough: bool, list: &str,
 fn conc_part(rep: &mut Report, viol: &mut Viol, thorough: bool) {
     let cases = conc::cases(thorough);
     let jobs: Vec<Vec<String>> = cases.iter().map(|c| one_job(&c.json)).collect();
-    let ended = run_parallel_n(&jobs, Duration::from_secs(if thorough { 600 } else { 240 }), 3);
+    let ended = run_parallel_n(&jobs, Duration::from_secs(if thorough { 300 } else { 40 }), 3);
     for (c, e) in cases.iter().zip(ended) {
         rep.evaluations += 1;
         rep.hist("builtin", c.builtin);
@@ -560,7 +579,7 @@ fn conc_part(rep: &mut Report, viol: &mut Viol, thorough: bool) {
                 let verb = if how == "timeout" { "builtin-timeout" } else { "builtin-abort" };
                 viol.add(
                     rep,
-                    &format!("built-in {} kills the host process ({how}) when another thread uses the same list: `{}`", c.builtin, c.class),
+                    &format!("built-in {} {} when another thread uses the same list: `{}`", c.builtin, kills(&how), c.class),
                     &format!("{verb} {} under-contention", c.builtin),
                     input,
                 );
